@@ -101,7 +101,7 @@ def guarded_stream(ctx: Ctx, name: str, fn: Any) -> Stream:
 	over its budget) is a broken tie with the traceback as its disagreement — not a crash of the check."""
 	import traceback
 	try:
-		with budget(ctx.scale(400, 1500)):
+		with ctx.timed(f'stream:{name}'), budget(ctx.scale(400, 1500)):
 			return fn(ctx)
 	except common.InfraError:
 		raise
@@ -115,7 +115,7 @@ def guarded_search(ctx: Ctx, label: str, fn: Any) -> SearchResult:
 	"""Safety net for a search: an unforeseen exception while evaluating a law on the real code is reported as a finding."""
 	import traceback
 	try:
-		with budget(ctx.scale(600, 2400)):
+		with ctx.timed(f'search:{label}'), budget(ctx.scale(600, 2400)):
 			return fn(ctx)
 	except common.InfraError:
 		raise
@@ -395,9 +395,9 @@ def search_rename(ctx: Ctx) -> SearchResult:
 	corpus_findings = len(res.findings)   # the cap on shrinking below counts generated findings only
 
 	# 2. generated programs × adversarial renamings
-	n_prog = ctx.scale(36, 125)
+	n_prog = ctx.scale(32, 125)
 	per_prog = ctx.scale(3, 5)
-	deadline = Deadline(ctx, 80, 480)
+	deadline = Deadline(ctx, 60, 480)
 	for n_done, (origin, src, tag) in enumerate(program_stream(ctx, rng, n_prog)):
 		if deadline.cut(hist, n_done, n_prog):
 			break
@@ -459,7 +459,7 @@ def search_rename(ctx: Ctx) -> SearchResult:
 	all_words = sorted({w for ws in word_sets for w in ws})
 	avoid = c08gen.emitter_vocabulary() | reserved.words
 	rounds = ctx.scale(1, 4)
-	spell_deadline = Deadline(ctx, 40, 240)
+	spell_deadline = Deadline(ctx, 30, 240)
 	spell_findings = 0
 	for n_done, (rnd, focus) in enumerate((a, ws) for a in range(rounds) for ws in word_sets):
 		if spell_deadline.cut(hist, n_done, rounds * len(word_sets)):
@@ -480,8 +480,9 @@ def search_rename(ctx: Ctx) -> SearchResult:
 		prng.shuffle(iterated)
 		others = ['calc', 'text', 'field']
 		prng.shuffle(others)
-		full = dict(zip((slots[sl] for sl in iterated + others), pool + rest))
-		two = dict(list(full.items())[:2])
+		two = dict(zip((slots[sl] for sl in iterated), pool + rest))
+		# … and in the renaming of all five members the field / the called methods come first (a one-word set lands on them)
+		full = dict(zip((slots[sl] for sl in others + iterated), pool + rest))
 		single = dict([prng.choice(list(full.items()))])
 		for mapping in ((two, full, single) if ctx.thorough else (two, full)):
 			if not mapping or not legal_renaming(src, mapping, reserved):
